@@ -431,7 +431,7 @@ fn main() {
     compared step by step with a VecDeque model; non-trivial = more values were sent than the capacity (ring wrapped / \
     storage recycled); distinct = hash of (flavour, capacity, action trace)"
     .into();
-  let flavours: Vec<Flavour> = [Flavour::SpscBounded, Flavour::MpscBounded, Flavour::MpscUnbounded, Flavour::MpmcBounded, Flavour::MpmcUnbounded].to_vec();
+  let flavours: Vec<Flavour> = [Flavour::SpscBounded, Flavour::MpscBounded, Flavour::MpscUnbounded, Flavour::MpmcBounded, Flavour::MpmcUnbounded, Flavour::MpmcExp].to_vec();
   let mut rng = Rng::new(args.shard_seed());
   let mut exec = 0u64;
   // watchdog for blocking calls (see IN_FLIGHT)
